@@ -255,10 +255,14 @@ func edits(s dbSchema) []dbEdit {
 			}
 		}
 		for _, o := range s.Tables {
-			if o.Name != t.Name && t.col("c2") == nil {
-				n := s.clone()
-				n.Tables[ti].Cols = append(n.Tables[ti].Cols, dbCol{Name: "c2", Type: "int", RefT: o.Name, RefC: "id"})
-				add("add-fk-column", fmt.Sprintf("add column %s.c2 referencing %s.id", t.Name, o.Name), n)
+			// a referencing column whose name sorts after ("c2") and before ("b0") the plain added column "c1":
+			// several columns added to one table are processed in name order
+			for _, fk := range []string{"c2", "b0"} {
+				if o.Name != t.Name && t.col(fk) == nil {
+					n := s.clone()
+					n.Tables[ti].Cols = append(n.Tables[ti].Cols, dbCol{Name: fk, Type: "int", RefT: o.Name, RefC: "id"})
+					add("add-fk-column", fmt.Sprintf("add column %s.%s referencing %s.id", t.Name, fk, o.Name), n)
+				}
 			}
 		}
 		for ci, c := range t.Cols {
